@@ -11,7 +11,7 @@ prop, req, comment = sys.argv[1:4]
 lemmas = sys.argv[4:]
 pf = os.path.join(COQ, "Properties_%s.v" % prop)
 src = open(pf).read()
-body = src.rstrip("\n") + "\n\n" + req + "\nLocal Open Scope Z_scope.\nSet Printing Width 118.\n"
+body = src.rstrip("\n") + "\n\n" + req + "\nLocal Open Scope Z_scope.\nSet Printing Width 118.\nSet Printing Depth 100000.\n"
 probe = body + "".join("Check %s.\n" % l for l in lemmas)
 tmp = os.path.join(COQ, "Probe_%s_tmp.v" % prop)
 open(tmp, "w").write(probe)
@@ -48,5 +48,6 @@ p = subprocess.run(["coqc", "-Q", ".", "CppUVerif", "Properties_%s.v" % prop], c
 bad = [x for x in p.stdout.split("\n") if x and not x.startswith("Closed under")]
 print("Properties_%s.v: rc=%d, %d theorems; %s" % (prop, p.returncode, len(re.findall(r"^Theorem", open(pf).read(), flags=re.M)), bad[:10]))
 if p.returncode != 0:
+    open("/tmp/failed_Properties_%s.v" % prop, "w").write(open(pf).read())
     open(pf, "w").write(src)
     sys.exit(1)
